@@ -93,11 +93,11 @@ def parts_first_rule(ctx, rule):
         ctx.ob(rule, 'writer.write_multi:summary-write-guarded-by-write_fmd-and-after-the-loop:%s' % norm(w.args[0])[:40],
                'write_fmd' in tests and not in_loop and cfg.dominates(cfg.node_of(loop), cfg.node_of(st)),
                'tests=%s in_loop=%s' % (tests, in_loop), wr.loc(w))
-    order = [norm(w.args[0]) for w in sorted(wcm, key=lambda c: c.lineno)]
+    order = [norm(w.args[0]) for w in sorted(wcm, key=lambda c: (c.lineno, c.col_offset))]
     ctx.ob(rule, 'writer.write_multi:_metadata-before-_common_metadata',
            len(order) == 2 and "'_metadata'" in order[0] and "'_common_metadata'" in order[1], str(order), wr.loc(g))
     h = api.func('ParquetFile._write_common_metadata')
-    wc = sorted(_calls(h, 'write_common_metadata'), key=lambda c: c.lineno)
+    wc = sorted(_calls(h, 'write_common_metadata'), key=lambda c: (c.lineno, c.col_offset))
     ok = len(wc) == 2 and norm(wc[0].args[0]) == 'self.fn' and norm(wc[1].args[0]) == 'fn' and \
         norm(kwarg(wc[0], 'no_row_groups')) == 'False'
     ctx.ob(rule, 'api._write_common_metadata:_metadata-then-_common_metadata', ok,
@@ -528,11 +528,15 @@ def mode_params_rule(ctx, rule):
     okn, why_n = False, 'no refusal under a test for integer input and integer storage'
     for st in walk_no_nested(f):
         t0 = norm(st.test) if isinstance(st, ast.If) else ''
-        if not (isinstance(st, ast.If) and "dtype.kind in 'iu'" in t0 and "out.dtype.kind in 'iu'" in t0 and any(isinstance(r, ast.Raise) for r in ast.walk(st))):
+        conj = [norm(v) for v in (st.test.values if isinstance(st, ast.If) and isinstance(st.test, ast.BoolOp) and isinstance(st.test.op, ast.And)
+                                  else [st.test] if isinstance(st, ast.If) else [])]
+        arm = ast.Module(body=st.body, type_ignores=[]) if isinstance(st, ast.If) else None
+        if not (isinstance(st, ast.If) and "dtype.kind in 'iu'" in conj and "out.dtype.kind in 'iu'" in conj
+                and any(isinstance(r, ast.Raise) for r in ast.walk(arm))):
             continue
-        inner = [x for x in ast.walk(st) if isinstance(x, ast.If) and x is not st and any(isinstance(r, ast.Raise) for r in ast.walk(x))]
+        inner = [x for x in ast.walk(arm) if isinstance(x, ast.If) and any(isinstance(r, ast.Raise) for r in ast.walk(x))]
         tests = [norm(x.test) for x in inner] + [t0]
-        defs_n = {norm(a_.targets[0]): norm(a_.value) for a_ in ast.walk(st) if isinstance(a_, ast.Assign) and len(a_.targets) == 1}
+        defs_n = {norm(a_.targets[0]): norm(a_.value) for a_ in ast.walk(arm) if isinstance(a_, ast.Assign) and len(a_.targets) == 1}
         # (a) the cast result is compared back with the values (only sound for a narrower storage type: guarded by itemsize)
         form_a = any(('out != data.values' in t or 'data.values != out' in t) and '.any()' in t for t in tests)
         # (b) the values are compared with the range of the column's own integer type
